@@ -4,8 +4,14 @@ import (
 	"fmt"
 	"sort"
 
+	"github.com/kelindar/column"
 	"github.com/kelindar/column/commit"
 )
+
+// loggerFunc adapts a function to commit.Logger.
+type loggerFunc func(c commit.Commit) error
+
+func (f loggerFunc) Append(c commit.Commit) error { return f(c) }
 
 func newWorld(cs *Case) *World {
 	w := &World{cs: cs, stats: &RunStats{}, txns: map[int]*MTxn{}, inserts: map[int][]uint32{}}
@@ -24,6 +30,7 @@ type seqOracles struct {
 	dump      bool // full-state comparison with the model after every step
 	twin      bool // C02 part A: a twin collection runs the history without the aborted transactions
 	triggers  bool
+	trigRep   bool           // C19: the stream is replayed on a replica that carries the same triggers; they must be told the same
 	stream    bool           // tap-based stream checks (nothing emitted for rollbacks, ...)
 	final     func(w *World) // extra checks on the final state (fault enumeration)
 	roundtrip bool           // every emitted commit is also cloned and serialized through the simulated disk
@@ -60,6 +67,23 @@ func runSeq(cs *Case, or seqOracles) (w *World) {
 				w.fail(w.tapRoundTrip(tc, c, rng))
 			}
 		}
+	}
+
+	// C19 on a replica: every emitted commit is cloned, replayed on a second collection with
+	// the same schema and the same triggers (created and dropped in lockstep), whose callbacks
+	// must report exactly what the primary's must
+	var rep *column.Collection
+	var repTrig *trigLog
+	var pending []commit.Commit
+	if or.trigRep {
+		rep = w.newCollection(nil)
+		w.prefill(rep, cs.Cfg.Prefill)
+		repTrig = newTrigLog(w)
+		w.trigRep = repTrig
+		w.tap.Sinks = append(w.tap.Sinks, loggerFunc(func(c commit.Commit) error {
+			pending = append(pending, c.Clone())
+			return nil
+		}))
 	}
 
 	var twin *World
@@ -102,6 +126,19 @@ func runSeq(cs *Case, or seqOracles) (w *World) {
 					w.fail(v)
 				}
 			}
+			if rep != nil && w.viol == nil {
+				for _, c := range pending {
+					if err := rep.Replay(c); err != nil {
+						w.fail(violation("replica/replay-error", "step %d: Replay returned %v", i, err))
+					}
+				}
+				pending = pending[:0]
+				if v := repTrig.check(); v != nil && w.viol == nil {
+					v.Sig = "replica-" + v.Sig
+					v.Detail = fmt.Sprintf("step %d, on a replica fed the change stream: %s", i, v.Detail)
+					w.fail(v)
+				}
+			}
 			if w.viol == nil && or.stream && st.Txn.Abort && len(w.tap.Commits) != before {
 				w.fail(violation("stream/emitted-on-rollback", "step %d: a rolled-back transaction emitted %d commits", i, len(w.tap.Commits)-before))
 			}
@@ -120,6 +157,9 @@ func runSeq(cs *Case, or seqOracles) (w *World) {
 				w.fail(violation("schema", "CreateColumn(%q): %v", st.Col.Name, err))
 			}
 			w.model.Cols = append(w.model.Cols, *st.Col)
+			if rep != nil {
+				rep.CreateColumn(st.Col.Name, makeColumn(*st.Col))
+			}
 			if twin != nil {
 				twin.primary.CreateColumn(st.Col.Name, makeColumn(*st.Col))
 				twin.model.Cols = append(twin.model.Cols, *st.Col)
@@ -161,9 +201,19 @@ func runSeq(cs *Case, or seqOracles) (w *World) {
 			if err := w.trig.create(w.primary, st.Name, st.Col.Name); err != nil {
 				w.fail(violation("schema", "CreateTrigger(%q): %v", st.Name, err))
 			}
+			if rep != nil {
+				if err := repTrig.create(rep, st.Name, st.Col.Name); err != nil {
+					w.fail(violation("schema", "CreateTrigger(%q) on the replica: %v", st.Name, err))
+				}
+			}
 		case "droptrigger":
 			if err := w.trig.drop(w.primary, st.Name); err != nil {
 				w.fail(violation("schema", "DropTrigger(%q): %v", st.Name, err))
+			}
+			if rep != nil {
+				if err := repTrig.drop(rep, st.Name); err != nil {
+					w.fail(violation("schema", "DropTrigger(%q) on the replica: %v", st.Name, err))
+				}
 			}
 		case "restart":
 			w.restart(st.Arg)
